@@ -1,7 +1,7 @@
 """C14 - Injected code runs once in the current scope, even across edits.
 
 Per generated method: one reference run without injection, then one run per injection tick (and per snippet / edit
-delay choice). Oracle: unique injected labels exactly once within K interpreter ticks (ticks in which the run is
+delay choice / group of 2-3 snippets whose lifetimes overlap, also inside a Hold/Pause window opened by the user). Oracle: unique injected labels exactly once within K interpreter ticks (ticks in which the run is
 paused or on hold do not count) and never twice; an injected UOD command is initialised once, runs to completion and is
 finalised; the method-line part of the run (node state transitions, Marks, UOD callbacks, final method state) equals
 the reference run. With a live edit after the injection only the injected code itself is judged. See DESIGN.md C14."""
@@ -22,7 +22,9 @@ RULE = ("seeded P-code generator (Mark, UOD, Wait, thresholds, Block, Watch, Ala
         "duration, counters, blank lines; no Stop/Restart) x scripted FT01 trajectory x snippet from {Mark, two Marks, "
         "long UOD command, short UOD command, Wait+Mark, Block..End block, mixed} with unique labels and command names "
         "the method never uses x injection at every tick of the run (quick: every 2nd) x {no edit, live edit (append a "
-        "Mark at the end of the method) 0-6 ticks later}. distinct = (method shape, snippet kind, phase of the "
+        "Mark at the end of the method) 0-6 ticks later, 2-3 snippets in one run (unique labels, pairwise different "
+        "command names Other/Drive1/Mode, at most one Block) injected 0-4 ticks apart so that their lifetimes overlap, "
+        "a quarter of them inside a user Hold/Pause window that is released 1-5 ticks after the last injection}. distinct = (method shape, snippet kind, phase of the "
         "injection relative to the run, edit delay); non-trivial = the method had started lines and pending lines at "
         "the injection, or the engine was paused/on hold at the injection")
 ASSUMPTIONS = [
@@ -36,10 +38,16 @@ ASSUMPTIONS = [
     "and final method state of method lines; if these differ only in timing the untimed comparison decides, restricted "
     "to lines outside Alarm/macro bodies",
     "with a live edit the method-line half is C01's business and is not compared here",
+    "several snippets alive at once: each is judged on its own (exactly once, command completed and finalised); the "
+    "bound of a snippet counts from its own injection and includes the bounds of the snippets injected before it in "
+    "that run, so an engine that runs pending snippets one after the other is not blamed; the reference run of a "
+    "user Hold/Pause window has the same user commands and no injection",
 ]
 REQUIRED = {"injections_no_edit": 2000, "label_bound_checks": 2000, "uod_finalize_checks": 400,
             "differential_exact_equal": 1500, "injections_with_edit": 800, "interp_ticks_counted": 20000,
-            "injections_while_paused_or_held": 20}
+            "injections_while_paused_or_held": 20, "multi_injection_runs": 600, "multi_runs_with_overlapping_lifetimes": 500,
+            "multi_label_bound_checks": 1200, "multi_uod_finalize_checks": 500, "multi_differential_exact_equal": 500,
+            "multi_later_snippet_injected_while_paused_or_held": 80, "multi_runs_in_user_hold_or_pause_window": 80}
 
 ALLOW = ("mark", "uod", "wait", "block", "watch", "alarm", "macro", "thr", "blank", "pausehold", "counter", "info", "sim")
 INJ_CMDS = ("Other", "Mode", "Drive1")   # rig commands the generated methods never use
@@ -445,7 +453,7 @@ def check_case(case: dict, res: Result):
         n = 0
         while t <= q + 3:
             sn = snippet(rnd, str(n))
-            d = rnd.choice([None, None, None, None, "multi", "multi", 0, 1, 2, 3, 4, 6])
+            d = rnd.choice([None, None, None, None, None, "multi", "multi", 0, 1, 2, 3, 4, 6])
             if d == "multi":
                 # 2-3 snippets whose lifetimes overlap; sometimes inside a Hold / Pause window opened by the user
                 sns, gaps = multi_snippets(rnd, str(n))
